@@ -618,3 +618,11 @@ def replay(spec):
     if list(dab.columns) != want_cols:
         fails.append('layout %s: the difference table does not keep the column order (%s -> %s)' % (name, want_cols, list(dab.columns)))
     return {'violated': bool(fails), 'detail': fails}
+
+
+RIM = {'lat': -84.6, 'lon': 150.0, 'alt': 15000.0, 'VN': 250.0, 'VE': -200.0, 'VD': 5.0, 'roll': 120.0, 'pitch': -60.0, 'heading': -170.0}
+
+
+def FALLBACK(tier):
+    """numeric oracle specs put to the compiled code when the symbolic run is inconclusive (main.py)"""
+    return [{'check': 'to180', 'point': {'a': a_}} for a_ in (190.0, -725.5, 1e4 + 0.25, -180.0, 540.0)] + [{'check': 'series', 'point': {}}, {'check': 'perturb_finite', 'point': {}}] + [{'check': 'frames', 'point': {}, 'params': {'layout': li}} for li in range(len(LAYOUTS)) if li != 2]
